@@ -189,3 +189,28 @@ func pypiGate(cons []versCons, probe string) (gated bool, decidable bool) {
 	}
 	return true, true
 }
+
+// twinQuestions returns the (range, version) questions whose CONCATENATION equals that of (text, probe): one character
+// (or two) moved across the boundary between the two arguments. A result table keyed on the two texts glued together
+// without a separator confuses a question with its twins.
+func twinQuestions(text, probe string) [][2]string {
+	var out [][2]string
+	for k := 1; k <= 2; k++ {
+		if len(text) > k+8 && embeddableTail(text[len(text)-k:]) {
+			out = append(out, [2]string{text[:len(text)-k], text[len(text)-k:] + probe})
+		}
+		if len(probe) > k && embeddableTail(probe[:k]) {
+			out = append(out, [2]string{text + probe[:k], probe[k:]})
+		}
+	}
+	return out
+}
+
+func embeddableTail(s string) bool {
+	for i := 0; i < len(s); i++ {
+		if !(s[i] >= '0' && s[i] <= '9' || s[i] >= 'a' && s[i] <= 'z' || s[i] == '.') {
+			return false
+		}
+	}
+	return true
+}
